@@ -38,17 +38,17 @@ TCancel ==
          \* request body and a handler that is not in Recv the disconnect is not observable (third-party contract).
          \* The same holds while the terminating chunk of a chunked body has not been consumed: a streaming handler that
          \* has read its one message frame but written nothing yet (lateend) cannot be told.
-         observable == /\ (e.client = "grpc-cancel" \/ e.shape \in {"unary", "sstream"} \/ e.point = "blockedRecv")
+         observable == /\ (e.client = "grpc-cancel" \/ e.shape \in {"unary", "sstream"} \/ e.point \in {"blockedRecv", "blockedFirstRecv"})
                        /\ (e.lateend => \/ e.point \in {"idleAfterSend", "returned"}             \* a reply write drained the body
                                          \/ (e.point = "blockedSend" /\ e.shape \in {"sstream", "bidi"})
                                          \/ (e.client = "http-disconnect" /\ e.shape = "unary"))  \* the unary body is read to its end
          bad == IF e.crash # "" THEN {"Crash"}
                 ELSE IF ~observable THEN {}
                 ELSE (IF ~e.ctxdone THEN {"CancelReachesContext"} ELSE {})
-                     \cup (IF e.point \in {"blockedRecv", "blockedSend"} /\ e.reached /\ ~(e.released /\ e.relerr /\ ~e.releof) THEN {"CancelReleases"} ELSE {})
+                     \cup (IF e.point \in {"blockedRecv", "blockedFirstRecv", "blockedSend"} /\ e.reached /\ ~(e.released /\ e.relerr /\ ~e.releof) THEN {"CancelReleases"} ELSE {})
                      \cup (IF e.donebefore THEN {"SpuriousDone"} ELSE {})
      IN /\ failed' = failed \cup {<<e.case, l, f>> : f \in bad}
-        /\ stat' = [stat EXCEPT !.cancels = @ + 1, !.blocked = @ + (IF e.point \in {"blockedRecv", "blockedSend"} /\ e.reached THEN 1 ELSE 0)]
+        /\ stat' = [stat EXCEPT !.cancels = @ + 1, !.blocked = @ + (IF e.point \in {"blockedRecv", "blockedFirstRecv", "blockedSend"} /\ e.reached THEN 1 ELSE 0)]
   /\ l' = l + 1 /\ UNCHANGED <<hpos, ctxDone, cancelled, released>>
 
 TSpec == TInit /\ [][TTimeout \/ TCancel]_tvars
